@@ -3,6 +3,7 @@
 # usage: tools/recheck_seeds.sh [tier] [parallel]
 one() {
   d=$1; n=$(basename $d); id=$(cat $d/check_with 2>/dev/null || echo ${n%-*})
+  if [ -e $d/retired ]; then echo "$n retired"; return; fi
   D=/tmp/seedrepo.r$$.$n
   rm -rf $D; mkdir -p $D && cp -r /repo/src $D/src
   if ! ( cd $D && git apply $d/patch.diff ); then echo "$n APPLY-FAILED"; rm -rf $D; return; fi
